@@ -124,7 +124,8 @@ def exec_xfer(job):
     from . import sim
     case, order = job
     cfg = case["cfg"]
-    dev = sim.Device(cfg)
+    # (every other transfer on a simulator whose reply size budget is configured on a derived Message Router class)
+    dev = sim.Device(cfg, budget_via="subclass" if len(case["reqs"]) % 2 == 0 else "class")
     dev.set_mem(case["mem"])
     evs = []
     if case["k"] == "rd":
